@@ -56,9 +56,10 @@ type Scenario struct {
 	Verify    bool     `json:"verify"`
 	DeleteOld bool     `json:"delete_old"`
 	Parallel  int      `json:"parallel"`
-	Damage    string   `json:"damage"`  // "" | truncate0 | truncate | bitflip | garbage
-	Stale     string   `json:"stale"`   // "" | whole | torn   (a leftover <folder>.hyd)
-	FailAt    int      `json:"fail_at"` // -1: no write fault; else index of the failing file operation
+	Damage    string   `json:"damage"`     // "" | truncate0 | truncate | bitflip | garbage
+	Stale     string   `json:"stale"`      // "" | whole | torn   (a leftover <folder>.hyd)
+	ReadFault string   `json:"read_fault"` // "" | dangling | loop: one chunk file cannot be read WHILE the migrator runs
+	FailAt    int      `json:"fail_at"`    // -1: no write fault; else index of the failing file operation
 	Short     bool     `json:"short"`
 	Seed      int64    `json:"seed"`
 }
@@ -466,7 +467,34 @@ func (r *run) do(work string) {
 			tw.Emit(ev{"ev": "failed", "phase": m["phase"]})
 		}
 	})
-	tw.Emit(ev{"ev": "start", "verify": sc.Verify, "delete_old": sc.DeleteOld})
+	// ---- a read fault during the migration: one chunk file is replaced by a symbolic link that cannot be followed
+	// (reading it fails; the legacy engine could read the file before and can read it again afterwards)
+	rfault := []int{}
+	var faultPath string
+	var faultBytes []byte
+	if sc.ReadFault != "" && len(chunkFiles) > 0 {
+		i := r.rng.Intn(len(chunkFiles))
+		faultPath = filepath.Join(folder, chunkFiles[i])
+		faultBytes, _ = os.ReadFile(faultPath)
+		must(os.Remove(faultPath))
+		target := filepath.Join(data, "no-such-file")
+		if sc.ReadFault == "loop" {
+			target = faultPath
+		}
+		must(os.Symlink(target, faultPath))
+		rfault = append(rfault, i+1)
+	}
+	restoreFault := func() {
+		if faultPath == "" {
+			return
+		}
+		if fi, err := os.Lstat(faultPath); err == nil && fi.Mode()&os.ModeSymlink != 0 {
+			os.Remove(faultPath)
+			must(os.WriteFile(faultPath, faultBytes, 0o644))
+		}
+	}
+	defer restoreFault()
+	tw.Emit(ev{"ev": "start", "verify": sc.Verify, "delete_old": sc.DeleteOld, "rfault": rfault})
 	panicked := ""
 	var res *migrator.Result
 	func() {
@@ -502,6 +530,7 @@ func (r *run) do(work string) {
 			r.wrong = append(r.wrong, fmt.Sprintf("migrator processed %d swamps, %d successful", res.ProcessedSwamps, res.SuccessfulSwamps))
 		}
 	}
+	restoreFault() // (the fault is over: what is left of the legacy folder is judged with the chunk readable again)
 	now := snapshot(folder)
 	switch {
 	case now == nil:
